@@ -115,6 +115,7 @@ struct Inverter<'q, I: Interner> {
     table: &'q mut InferenceTable<I>,
     inverted_ty: FxHashMap<PlaceholderIndex, EnaVariable<I>>,
     inverted_lifetime: FxHashMap<PlaceholderIndex, EnaVariable<I>>,
+    inverted_const: FxHashMap<PlaceholderIndex, EnaVariable<I>>,
     interner: I,
 }
 
@@ -124,6 +125,7 @@ impl<'q, I: Interner> Inverter<'q, I> {
             table,
             inverted_ty: FxHashMap::default(),
             inverted_lifetime: FxHashMap::default(),
+            inverted_const: FxHashMap::default(),
             interner,
         }
     }
@@ -157,6 +159,20 @@ impl<'i, I: Interner> TypeFolder<I> for Inverter<'i, I> {
             .entry(universe)
             .or_insert_with(|| table.new_variable(universe.ui))
             .to_lifetime(TypeFolder::interner(self))
+            .shifted_in(TypeFolder::interner(self))
+    }
+
+    fn fold_free_placeholder_const(
+        &mut self,
+        ty: Ty<I>,
+        universe: PlaceholderIndex,
+        _outer_binder: DebruijnIndex,
+    ) -> Const<I> {
+        let table = &mut self.table;
+        self.inverted_const
+            .entry(universe)
+            .or_insert_with(|| table.new_variable(universe.ui))
+            .to_const(TypeFolder::interner(self), ty)
             .shifted_in(TypeFolder::interner(self))
     }
 
